@@ -13,7 +13,7 @@ mkdir -p "$D"
 cleanup() { git -C /repo worktree remove --force "$D/repo" >/dev/null 2>&1; rm -rf "$D"; }
 trap cleanup EXIT INT TERM
 git -C /repo worktree add -q --detach "$D/repo" HEAD || exit 2
-git -C "$D/repo" apply "$PATCH" || { echo "patch does not apply"; exit 2; }
+git -C "$D/repo" apply "$PATCH" 2>/dev/null || git -C "$D/repo" apply --3way "$PATCH" >/dev/null 2>&1 || { echo "patch does not apply"; exit 2; }
 sed "s#=> /repo/v2#=> $D/repo/v2#; s#=> /repo\$#=> $D/repo#" go.mod > "$D/go.mod"
 cp go.sum "$D/go.sum"
 for id in "$@"; do
